@@ -8,13 +8,16 @@ from ..cfg import CFG
 from ..pathcond import implied
 
 MANIFEST = {
-    'technique': 'cell-wise symbolic interpretation (D-lin) of the moisture adjustment: net change of retentate + permeate must be zero on every path; closure-by-complement and ordering rules for partition; linear-form check of the efficiency mixing; clamp-before-write; provenance of the phase rows copied by the wrappers',
-    'text': 'Decides for every input: partition writes top = feed - bottom after every store into bottom; mix_and_split is mix_from followed by split_to on '
-            'the mixed stream (C01); in adjust_moisture_content the change of the retentate plus the change of the permeate is symbolically zero on '
-            'every path including the non-strict repair; the LLE efficiency mixing yields top+bottom = eta(top+bottom)+(1-eta)feed; the VLE/LLE wrappers '
-            'copy the two phase rows of one and the same multi-stream into the two outlets; phase_split pairs phases with outlets after the length '
-            'test; infeasible bottom flows are clamped into [0, feed] before they are stored; material_balance scales each variable inlet by its own '
-            'factor. Reproduction of K, reached moisture and solver accuracy are not decided.',
+    'technique': 'cell-wise symbolic interpretation (D-lin) of the moisture adjustment: net change of retentate + permeate must be zero on every path; '
+            'closure-by-complement and ordering rules for partition; linear-form check of the efficiency mixing; clamp-before-write; provenance of the phase rows '
+            'copied by the wrappers; the C01 split-closure and C12 views-attached rules for the streams the helpers delegate to',
+    'text': 'Decides for every input: partition writes top = feed - bottom after every store into bottom; mix_and_split is mix_from followed by split_to on the '
+            'mixed stream (C01); in adjust_moisture_content the change of the retentate plus the change of the permeate is symbolically zero on every path '
+            'including the non-strict repair; the LLE efficiency mixing yields top+bottom = eta(top+bottom)+(1-eta)feed; the VLE/LLE wrappers copy the two phase '
+            'rows of one and the same multi-stream into the two outlets; phase_split pairs phases with outlets after the length test; infeasible bottom flows are '
+            'clamped into [0, feed] before they are stored; material_balance scales each variable inlet by its own factor; split_to closes for outlets on any '
+            'package and the per-phase sub-streams phase_split iterates are dropped or re-attached when the flow container is re-bound. Reproduction of K, reached '
+            'moisture and solver accuracy are not decided.',
 }
 
 SEP = 'thermosteam/separations.py'
@@ -27,6 +30,8 @@ def run(ctx):
         'D1 closure: partition complement is the last material store; mix_and_split; moisture adjustment net change zero; lle efficiency mixing; wrappers copy both rows of one multi-stream; phase_split pairing',
         'D2 infeasible flows clamped into [0, feed] before being stored',
         'D3 material_balance scales each variable inlet with its own factor',
+        'D4 the per-phase sub-streams that phase_split iterates are dropped or re-attached whenever the flow container is re-bound',
+        'D5 split_to, which mix_and_split delegates to, closes the balance for outlets on any property package',
     ]
     ctx.not_decided = ['that the given partition coefficients are reproduced', 'that the requested moisture is reached', 'linear-solve accuracy']
     d1 = ctx.rule('D1', 'closure of the balance', floor=10)
@@ -37,6 +42,14 @@ def run(ctx):
     moisture_rule(ctx, d1)
     wrappers_rule(ctx, d1)
     balance_rule(ctx, d3)
+    # phase_split (and the wrappers) read the feed phase by phase through its remembered sub-streams
+    d4 = ctx.rule('D4', 'per-phase views of the feed stay attached to the flow rows when the flow container is re-bound', floor=5)
+    from .C12 import dependents
+    dependents(ctx, d4)
+    # mix_and_split delegates the split to Stream.split_to / MultiStream.split_to
+    d5 = ctx.rule('D5', 'split_to closure (top = split*feed, bottom = feed - split*feed, written through the CAS index map of each outlet)', floor=2)
+    from .C01 import split_rule
+    split_rule(ctx, d5)
 
 
 def partition_rule(ctx, d1, d2):
